@@ -118,6 +118,8 @@ def run(chk):
     nd2 = copy.deepcopy(base)
     nd2["loads"]["ground_loads"] = [x * 0.001 for x in nd2["loads"]["ground_loads"]]    # one borehole at minimum height is already too much
     add("valid, loads too small for the smallest field", nd2, "run", no_design=True)
+    add("valid, output path is an existing regular file", base, "outfile", no_design=True)
+    add("valid, parent of the output path is a regular file", base, "outunder", no_design=True)
     cors = corruptions(base, rng, chk.tier)
     for label, inst in cors:
         add(label, inst, "run")
@@ -140,12 +142,18 @@ def run(chk):
         with open(ip, "w") as f:
             json.dump(j["inst"], f)
         od = os.path.join(d, "out")
-        argv = {"run": [ip, od], "validate": [ip, "--validate-only"], "nooutdir": [ip], "convert_other": [ip, od, "-c", "XYZ"]}[j["flags"]]
+        if j["flags"] in ("outfile", "outunder"):
+            blocker = os.path.join(d, "blocker")
+            with open(blocker, "w") as f:
+                f.write("not a directory")
+            od = blocker if j["flags"] == "outfile" else os.path.join(blocker, "out")
+        argv = {"run": [ip, od], "validate": [ip, "--validate-only"], "nooutdir": [ip], "convert_other": [ip, od, "-c", "XYZ"],
+                "outfile": [ip, od], "outunder": [ip, od]}[j["flags"]]
         try:
             code, err = run_cli(argv)
         except subprocess.TimeoutExpired:
             code, err = -9, "timeout"
-        written = all(os.path.exists(os.path.join(od, f)) for f in OUTS)
+        written = os.path.isdir(od) and all(os.path.exists(os.path.join(od, f)) for f in OUTS)
         return code, written, err
     with ThreadPoolExecutor(max_workers=NPROC) as ex:
         res = list(ex.map(one, range(len(jobs))))
